@@ -45,3 +45,19 @@ Definition event_split_brackets (t : list (string * list string)) : bool :=
                      | _ => false
                      end) t &&
   forallb (fun e => match lookup e t with Some _ => true | None => false end) ["BEFORE_TRADING"; "OPEN_AUCTION"; "BAR"; "AFTER_TRADING"; "SETTLEMENT"].
+
+(* a handler registered with subscribe_event (Strategy.wrap_user_event_handler): the events of a day phase - also their PRE_ / POST_
+   brackets - are handled in that phase; every other event (orders, trades, settlement ...) in the phase that is running when it is
+   published.  t is the table Strategy._EVENT_PHASE; fallback_enclosing says that an event without an entry keeps the enclosing phase
+   (false: the handler is forced into GLOBAL, where the order APIs and the unrestricted views are open). *)
+Definition handler_phase (t : list (string * xphase)) (fallback_enclosing : bool) (ev : string) (enclosing : xphase) : xphase :=
+  match lookup ev t with Some p => p | None => if fallback_enclosing then enclosing else XGlobal end.
+Definition day_phase_events : list (string * xphase) :=
+  [("BEFORE_TRADING", XBeforeTrading); ("OPEN_AUCTION", XOpenAuction); ("BAR", XOnBar); ("TICK", XOnTick); ("AFTER_TRADING", XAfterTrading)].
+Definition handlers_follow_split (split : list (string * list string)) (t : list (string * xphase)) (fb : bool) : bool :=
+  fb && forallb (fun kv => match lookup (fst kv) split with
+                           | Some parts => forallb (fun part => match lookup part t with Some p => xphase_eqb p (snd kv) | None => false end) parts
+                           | None => false
+                           end) day_phase_events.
+Definition closed_phase_events : list string :=
+  ["PRE_BEFORE_TRADING"; "BEFORE_TRADING"; "POST_BEFORE_TRADING"; "PRE_AFTER_TRADING"; "AFTER_TRADING"; "POST_AFTER_TRADING"].
